@@ -27,14 +27,43 @@ func c07Rounds(c *Ctx) int { return tierN(c, 16, 64) }
 
 var c07Configs = []struct{ g, procs int }{{2, 2}, {8, 2}, {32, 2}, {2, 16}, {8, 16}, {32, 16}, {64, 16}, {16, 4}}
 
-const c07DirectedDoc = `{"nums":[5,3,9,1,7,2,8,4,6,0,15,13,19,11,17,12,18,14,16,10],"strs":["e","c","i","a","g","b","h","d","f","z","y","x","w"],"recs":[{"k":5,"s":"e"},{"k":3,"s":"c"},{"k":9,"s":"i"},{"k":1,"s":"a"},{"k":7,"s":"g"},{"k":2,"s":"b"},{"k":8,"s":"h"},{"k":4,"s":"d"},{"k":6,"s":"f"},{"k":0,"s":"z"},{"k":15,"s":"y"},{"k":13,"s":"x"},{"k":19,"s":"w"}],"nested":[[3,1,2],[9,7,8],[6,4,5]],"objs":{"a":{"p":1},"b":{"q":2}}}`
+var c07DirectedDoc = c07BuildDirectedDoc()
+
+const c07DirectedDocSmall = `{"nums":[5,3,9,1,7,2,8,4,6,0,15,13,19,11,17,12,18,14,16,10],"strs":["e","c","i","a","g","b","h","d","f","z","y","x","w"],"recs":[{"k":5,"s":"e"},{"k":3,"s":"c"},{"k":9,"s":"i"},{"k":1,"s":"a"},{"k":7,"s":"g"},{"k":2,"s":"b"},{"k":8,"s":"h"},{"k":4,"s":"d"},{"k":6,"s":"f"},{"k":0,"s":"z"},{"k":15,"s":"y"},{"k":13,"s":"x"},{"k":19,"s":"w"}],"nested":[[3,1,2],[9,7,8],[6,4,5]],"objs":{"a":{"p":1},"b":{"q":2}}}`
 
 // c07Directed: every function that orders, reverses or merges, applied to every
 // way of handing it an array of the shared document (or a literal of the shared
 // Expression) without copying it: in-place work shows as a write-write race,
 // as wrong results, and as a changed document / expression.
+func c07BuildDirectedDoc() string {
+	var big, bad, bigs, bignums strings.Builder
+	for i := 0; i < 100; i++ {
+		if i > 0 {
+			big.WriteByte(',')
+			bad.WriteByte(',')
+			bigs.WriteByte(',')
+			bignums.WriteByte(',')
+		}
+		k := (i*37 + 11) % 101
+		fmt.Fprintf(&big, `{"id":%d,"k":%d,"s":"s%03d"}`, i, k, k)
+		if i == 70 {
+			fmt.Fprintf(&bad, `{"id":%d,"k":"x","s":7}`, i)
+		} else {
+			fmt.Fprintf(&bad, `{"id":%d,"k":%d,"s":"s%03d"}`, i, k, k)
+		}
+		fmt.Fprintf(&bigs, `"s%03d"`, k)
+		fmt.Fprintf(&bignums, `%d`, k)
+	}
+	return strings.TrimSuffix(c07DirectedDocSmall, "}") + `,"big":[` + big.String() + `],"bigbad":[` + bad.String() + `],"bigstrs":[` + bigs.String() + `],"bignums":[` + bignums.String() + `]}`
+}
+
 func c07Directed() []string {
 	var out []string
+	// large arrays, and the error paths on them (a key of the wrong type late in the array)
+	for _, src := range []string{"big", "big[:33]", "big[:64]", "big[:32]", "big[*]"} {
+		out = append(out, "sort_by("+src+", &k)[*].id", "sort_by("+src+", &s)[*].id", "max_by("+src+", &k).id", "min_by("+src+", &s).id", "group_by("+src+", &s) | length(@)", "map(&k, "+src+") | sort(@)", "reverse("+src+")[0].id")
+	}
+	out = append(out, "sort_by(bigbad, &k)", "sort_by(bigbad, &s)", "max_by(bigbad, &k)", "min_by(bigbad, &s)", "sort(bigstrs)", "sort(bignums)", "sort(bigbad[*].k)", "sort(bigbad[*].s)", "max(bigbad[*].k)", "join(',', bigbad[*].s)", "sort_by(bigbad[:60], &k)[*].id", "sort_by(bigbad[60:], &k)", "group_by(bigbad, &s)", "sum(bigbad[*].k)", "avg(bigbad[*].k)", "bigstrs[?@ > 's050'] | length(@)", "bignums[?@ > `50`] | length(@)")
 	wraps := []string{"%s", "%s[*]", "%s[:]", "%s[0:]", "%s[]", "%s[?`true`]", "to_array(%s)", "not_null(%s)", "(%s)", "%s | @", "[%s][0]", "{a: %s}.a", "%s || `[]`", "let $x = %s in $x", "map(&@, %s)"}
 	for _, w := range wraps {
 		nums := fmt.Sprintf(w, "nums")
